@@ -475,6 +475,10 @@ theorem inv2_async (c : Cfg) (ar aq : Nat) (s : S) (l : Label) (hl : l ≠ .work
     Inv2 c (step c s l) := by
   cases l with
   | work => exact absurd rfl hl
+  | lateResp k d t =>
+    simp only [step]
+    rw [lateBackoff_noop c ar aq s k d t h]
+    exact h2
   | poolFail f => exact ⟨h2.listen, await_transfer h2 rfl rfl rfl rfl rfl rfl⟩
   | hostsGone => exact ⟨h2.listen, await_transfer h2 rfl rfl rfl rfl rfl rfl⟩
   | upResp k code d t =>
